@@ -114,7 +114,7 @@ C13_Req(c) ==
 C23_Cells == {[clause |-> cl, impl |-> im, norm |-> s] :
                 cl \in {"proj", "complete", "recon", "exp", "expm"},
                 im \in {"2D", "gen2", "gen4"}, s \in {1, 10, 50}}
-C23_Req(c) == IF c.clause = "expm" THEN Dec(8, "reference-exponential") ELSE Dec(9, "rounding")
+C23_Req(c) == IF c.clause = "expm" THEN Dec(9, "reference-exponential") ELSE Dec(11, "rounding")
 
 (* ========================= C10 Identity and Compose =========================== *)
 C10_Cells ==
@@ -124,11 +124,18 @@ C10_Cells ==
   \cup
   {[clause |-> "identity", sector |-> s, method |-> "iterate-exact", order |-> n, qed |-> q, nf |-> f] :
      s \in {"ns-qed", "singlet-qed", "valence-qed"}, n \in Orders, q \in 1..2, f \in Nfs}
+(* the midpoint steps on the (reversed) geometric grid are the inverses of the forward  *)
+(* steps: the path-ordered product is reversible to rounding although it only composes *)
+(* in the limit                                                                        *)
+Reversible(sector, m, n) == ComposesExactly(sector, m, n) \/ ComposesInLimit(sector, m, n)
 C10_Req(c) ==
-  IF c.clause = "identity" THEN Dec(12, "rounding")
-  ELSE IF ComposesExactly(c.sector, c.method, c.order) THEN Dec(9, "rounding")
-  ELSE IF ComposesInLimit(c.sector, c.method, c.order) THEN Exp(158, 9000, "convergent")
-  ELSE None
+  CASE c.clause = "identity" -> Dec(11, "rounding")
+    [] c.clause = "roundtrip" ->
+         IF Reversible(c.sector, c.method, c.order) THEN Dec(11, "rounding") ELSE None
+    [] c.clause = "compose" ->
+         IF ComposesExactly(c.sector, c.method, c.order) THEN Dec(11, "rounding")
+         ELSE IF ComposesInLimit(c.sector, c.method, c.order) THEN Exp(158, 9000, "convergent")
+         ELSE None
 
 (* ============================== C09 DiagReduction ============================= *)
 C09_Cells == {[clause |-> "reduce", method |-> m, order |-> n, nf |-> f, dir |-> d] :
@@ -252,6 +259,13 @@ Req(law, c) ==
     [] law = "C14" -> C14_Req(c)
     [] law = "C15" -> C15_Req(c)
     [] law = "C23" -> C23_Req(c)
+(* derived attributes the measurement needs (handed to the harness with the plan) *)
+Aux(law, c) ==
+  CASE law = "C09" -> [counterpart |-> NsCounterpart(c.method),
+                        refine |-> IF SingletForm(c.method, c.order) = "PathOrdered" THEN "iterations"
+                                   ELSE IF SingletForm(c.method, c.order) = "USeries" THEN "max-order"
+                                   ELSE "none"]
+    [] OTHER -> [none |-> 0]
 (* number of cells that may be left unresolved before the check counts as not carried out *)
 UnresolvedBudget(law) == Cardinality(Cells(law)) \div 4
 
